@@ -2402,7 +2402,7 @@ func compileRateLimitConfig(field string, in *RateLimitBlock, res *ValidationRes
 		return out
 	}
 	rps, err := strconv.ParseFloat(rawRPS, 64)
-	if err != nil || rps <= 0 {
+	if err != nil || math.IsNaN(rps) || math.IsInf(rps, 0) || rps <= 0 {
 		res.Errors = append(res.Errors, fmt.Sprintf("%s.rps must be a positive number", field))
 		out.Enabled = false
 		return out
@@ -3282,7 +3282,7 @@ func compileRetry(field string, in *RetryBlock, base RetryConfig, res *Validatio
 			ok = false
 		} else {
 			v, err := strconv.ParseFloat(raw, 64)
-			if err != nil || v < 0 || v > 1 {
+			if err != nil || math.IsNaN(v) || v < 0 || v > 1 {
 				res.Errors = append(res.Errors, fmt.Sprintf("%s.jitter must be a number between 0 and 1", field))
 				ok = false
 			} else {
